@@ -249,6 +249,11 @@ pub fn hevc_annexb_to_hvcc(data: &[u8]) -> Vec<u8> {
 
 /// Check if the given Annex B data represents an HEVC keyframe (IRAP).
 pub fn is_hevc_keyframe(data: &[u8]) -> bool {
+    // Empty input contains no keyframe; report it through the return value.
+    if data.is_empty() {
+        return false;
+    }
+
     assert_invariant!(
         !data.is_empty(),
         "INV-503: HEVC keyframe detection requires non-empty data"
@@ -270,11 +275,7 @@ pub fn is_hevc_keyframe(data: &[u8]) -> bool {
         }
     }
 
-    assert_invariant!(
-        AnnexBNalIter::new(data).count() > 0,
-        "INV-505: HEVC keyframe detection must find at least one NAL unit"
-    );
-
+    // Data without any start code simply contains no keyframe NAL unit.
     false
 }
 
